@@ -65,6 +65,15 @@ MUTANTS = [
     {"name": "B3 negative slice start resolved from the wrong end", "file": CORE, "old": "            start = len(self) + mask.start", "new": "            start = len(self) - 1 + mask.start", "kill": ["C03"], "silent": []},
     {"name": "B4 parallel_map gathers by completion order", "file": UTIL, "old": "            index = future_to_index[future]\n            try:\n                results[index] = future.result()", "new": "            index = future_to_index[future]\n            try:\n                results[results.index(None)] = future.result()", "kill": ["C03"], "silent": []},
     {"name": "B5 cumulative output reuses the input array", "file": NB, "old": "    func = _cumulative_reduce.py_func if use_py_func else _cumulative_reduce", "new": "    if not counting and len(values) == 1 and values[0].dtype == target.dtype and mask is None:\n        target = values[0]\n    func = _cumulative_reduce.py_func if use_py_func else _cumulative_reduce", "kill": ["C19"], "silent": []},
+    # --- families added with the twelfth batch of seeded changes
+    {"name": "N1 row selection takes the values in reverse order", "file": CORE, "old": "            .iloc[ilocs]\n            .set_index(out_index)", "new": "            .iloc[ilocs[::-1]]\n            .set_index(out_index)",
+     "kill": ["C15"], "silent": []},
+    {"name": "N2 row selection labels taken one position late", "file": CORE, "old": "            out_index = common_index[ilocs]", "new": "            out_index = common_index[np.minimum(ilocs + 1, len(common_index) - 1)]",
+     "kill": ["C15"], "silent": []},
+    {"name": "N3 subset_ratio divides by the subset total", "file": CORE, "old": "        return self.agg(**kwargs, mask=subset_mask & global_mask) / self.agg(\n            **kwargs, mask=global_mask\n        )",
+     "new": "        return self.agg(**kwargs, mask=subset_mask & global_mask) / self.agg(\n            **kwargs, mask=subset_mask\n        )", "kill": ["C16"], "silent": []},
+    {"name": "N4 single-level margin is the plain numpy reduction", "file": CORE, "old": "        data.loc[\"All\"] = data.agg(agg_func)", "new": "        data.loc[\"All\"] = getattr(np, agg_func)(data.to_numpy(), axis=0)",
+     "kill": ["C14"], "silent": []},
 ]
 
 
